@@ -31,7 +31,17 @@ structure Abs (σ : Type) where
   jmp : Bool := false
   /-- during a byte: number of lexeme events queued -/
   nf : Nat := 0
+  /-- extent part: for each open lexeme (aligned with `evk`) a lower bound on cursor − begin -/
+  evd : List Nat := []
+  /-- extent part: a lower bound on the cursor -/
+  mp : Nat := 0
   deriving DecidableEq, Repr
+
+/-- the bounds of the extent part are kept up to this value -/
+def posCap : Nat := 3
+
+/-- key of a stored abstract state: step-stack top, open kinds, lag, fresh, distance bounds, cursor bound -/
+abbrev RKey (σ : Type) := List σ × List Ev × Nat × Bool × List Nat × Nat
 
 /-- the largest rewind of the cursor the progress analysis accepts -/
 def rewCap : Nat := 2
@@ -58,6 +68,25 @@ def applyKs : List Ev → List Ev → Option (List Ev)
     | some stk' => applyKs stk' rest
     | none => none
 
+/-- effect of one event, queued at `cursor − back`, on the distance bounds of the open lexemes; `none` = it
+    cannot be shown that the position lies inside the file (begin: `0 ≤ pos`; end and single: `pos < size`,
+    which at the end-of-file pseudo byte needs `back ≥ 1`) or that the lexeme does not end before it begins -/
+def applyD (eofByte : Bool) (mp : Nat) (evd : List Nat) (e : Ev) (back : Nat) : Option (List Nat) :=
+  if e.isBeginning then (if back ≤ mp then some (back :: evd) else none)
+  else if e.isEnding then
+    match evd with
+    | d :: rest => if back ≤ d + 1 && (!eofByte || decide (1 ≤ back)) then some rest else none
+    | [] => none
+  else if back ≤ mp && (!eofByte || decide (1 ≤ back)) then some evd else none
+
+/-- a condition can be evaluated without indexing outside the file -/
+def condSafe (eofByte : Bool) (mp : Nat) : Cond → Bool
+  | .dataBackEq back _ => decide (back ≤ mp) && (!eofByte || decide (1 ≤ back))
+  | .not c => condSafe eofByte mp c
+  | .and a b => condSafe eofByte mp a && condSafe eofByte mp b
+  | .or a b => condSafe eofByte mp a && condSafe eofByte mp b
+  | _ => true
+
 /-- how many entries of the step stack the abstraction remembers -/
 def stkCap : Nat := 2
 
@@ -79,19 +108,23 @@ def absProg {σ} (c : UInt8) : Prog σ → Abs σ → Option (List (ATail σ))
     match a.stk with
     | [] => none
     | t :: rest => absProg c k { a with st := t, stk := rest }
-  | .found e _ k, a =>
-    match applyK a.evk e with
-    | none => none
-    | some evk' => if a.nf < findCap then absProg c k { a with evk := evk', nf := a.nf + 1 } else none
+  | .found e back k, a =>
+    match applyK a.evk e, applyD (c == 0) a.mp a.evd e back with
+    | some evk', some evd' =>
+      if a.nf < findCap then absProg c k { a with evk := evk', evd := evd', nf := a.nf + 1 } else none
+    | _, _ => none
   | .curSub n k, a =>
     -- a rewind is accepted only at the high-water mark, after it has advanced since the last rewind,
     -- once per byte, by 1..rewCap (otherwise termination of the byte loop is not shown)
-    if a.lag == 0 && a.fresh && a.rew == 0 && !a.jmp && 1 ≤ n && n ≤ rewCap then
-      absProg c k { a with mv := true, rew := n }
+    -- and only as far as the cursor and every open lexeme are known to be from their beginnings
+    if a.lag == 0 && a.fresh && a.rew == 0 && !a.jmp && 1 ≤ n && n ≤ rewCap && n ≤ a.mp && a.evd.all (n ≤ ·) then
+      absProg c k { a with mv := true, rew := n, mp := a.mp - n, evd := a.evd.map (· - n) }
     else none
   | .readLen _ k, a =>
     if a.lag == 0 && a.rew == 0 then absProg c k { a with mv := true, jmp := true } else none
   | .ite cnd t e, a =>
+    if !condSafe (c == 0) a.mp cnd then none
+    else
     match simpleCond c cnd with
     | some true => absProg c t a
     | some false => absProg c e a
@@ -135,7 +168,9 @@ def Abs.norm {σ} (a : Abs σ) : Abs σ := { a with mv := false, rew := 0, jmp :
 def Abs.next {σ} (a : Abs σ) : Abs σ :=
   { a with mv := false, rew := 0, jmp := false, nf := 0,
            lag := if a.rew != 0 then a.rew - 1 else if a.jmp then 0 else a.lag - 1,
-           fresh := if a.rew != 0 then false else if a.jmp then true else a.lag == 0 }
+           fresh := if a.rew != 0 then false else if a.jmp then true else a.lag == 0,
+           evd := a.evd.map (fun d => min posCap (d + 1)),
+           mp := min posCap (a.mp + 1) }
 
 /-- one byte, from the abstract state's own step function -/
 def absByte {σ} (prog : σ → Prog σ) (a : Abs σ) (c : UInt8) : Option (List (Abs σ)) :=
@@ -145,15 +180,15 @@ def succsAll {σ} (prog : σ → Prog σ) (inputs : List UInt8) (a : Abs σ) : O
   joinAll (inputs.map (absByte prog a))
 
 /-- membership in a reach set given per step function (`mv` is not part of the stored states) -/
-def memR {σ} [DecidableEq σ] (reachAt : σ → List (List σ × List Ev × Nat × Bool)) (a : Abs σ) : Bool :=
-  (reachAt a.st).contains (a.stk, a.evk, a.lag, a.fresh)
+def memR {σ} [DecidableEq σ] (reachAt : σ → List (RKey σ)) (a : Abs σ) : Bool :=
+  (reachAt a.st).contains (a.stk, a.evk, a.lag, a.fresh, a.evd, a.mp)
 
 /-- one abstract state is fine: every input byte is safe and leads into the set; the end-of-file
     pseudo byte is safe, and it is the last thing a scanner sees unless the step function moved the
     cursor (stateAnnotationSign2 rewinds by two even at the end of file), in which case the
     successor must be in the set like any other -/
 def okAt {σ} [DecidableEq σ] (prog : σ → Prog σ) (inputs : List UInt8)
-    (reachAt : σ → List (List σ × List Ev × Nat × Bool)) (a : Abs σ) : Bool :=
+    (reachAt : σ → List (RKey σ)) (a : Abs σ) : Bool :=
   (match absByte prog a 0 with
    | none => false
    | some outs => outs.all fun o => !o.mv || memR reachAt o.next) &&
@@ -165,8 +200,8 @@ def okAt {σ} [DecidableEq σ] (prog : σ → Prog σ) (inputs : List UInt8)
 
 /-- the set is closed at step function `st` -/
 def closedAt {σ} [DecidableEq σ] (prog : σ → Prog σ) (inputs : List UInt8)
-    (reachAt : σ → List (List σ × List Ev × Nat × Bool)) (st : σ) : Bool :=
-  (reachAt st).all fun p => okAt prog inputs reachAt { st := st, stk := p.1, evk := p.2.1, lag := p.2.2.1, fresh := p.2.2.2 }
+    (reachAt : σ → List (RKey σ)) (st : σ) : Bool :=
+  (reachAt st).all fun p => okAt prog inputs reachAt { st := st, stk := p.1, evk := p.2.1, lag := p.2.2.1, fresh := p.2.2.2.1, evd := p.2.2.2.2.1, mp := p.2.2.2.2.2 }
 
 /-! bytes that occur in byte tests of a program -/
 def condBytes : Cond → List Nat
@@ -195,6 +230,49 @@ def StackFault : Fault → Prop
   | .err (.basic m) _ => m = mismatchMsg
   | _ => False
 
+/-- every crash of the scanner model: any panic site, and the internal "mismatch" error -/
+def Crash : Fault → Prop
+  | .panic _ => True
+  | .err (.basic m) _ => m = mismatchMsg
+  | _ => False
+
+theorem StackFault.crash {f : Fault} (h : StackFault f) : Crash f := by
+  cases f with
+  | panic s => trivial
+  | err m i => cases m <;> first | exact h | exact h.elim
+  | fuel => exact h.elim
+
+/-- a lexeme lies inside a file of `size` bytes: `data[b : e+1]` is a valid (possibly empty) slice -/
+def WFLex (size : Int) (l : Lexeme) : Prop := 0 ≤ l.b ∧ l.b ≤ l.e + 1 ∧ l.e < size
+
+/-- run the queued events over the event stack, checking every lexeme this will produce;
+    the result is the stack of begun lexemes afterwards -/
+def simQ (size : Int) : List (Ev × Int) → List (Ev × Int) → Option (List (Ev × Int))
+  | stk, [] => some stk
+  | stk, ev :: rest =>
+    if ev.1.isBeginning then (if 0 ≤ ev.2 ∧ ev.2 ≤ size then simQ size (ev :: stk) rest else none)
+    else if ev.1.isEnding then
+      match stk with
+      | b :: stk' => if Ev.matches b.1 ev.1 = true ∧ b.2 ≤ ev.2 + 1 ∧ ev.2 < size then simQ size stk' rest else none
+      | [] => none
+    else if 0 ≤ ev.2 ∧ ev.2 < size then simQ size stk rest else none
+
+/-- every begun lexeme starts at a position `≥ 0` that the cursor has left behind by at least its bound -/
+def DistOk (cur : Int) : List (Ev × Int) → List Nat → Prop
+  | [], [] => True
+  | x :: L, d :: ds => 0 ≤ x.2 ∧ x.2 + d ≤ cur ∧ DistOk cur L ds
+  | _, _ => False
+
+/-- extent part of the concretisation (over the fields it depends on) -/
+structure ExtRelF (size : Int) (evd : List Nat) (mp : Nat) (evs finds : List (Ev × Int)) (params : List Lexeme) (cur : Int) : Prop where
+  q : ∃ L, simQ size evs finds = some L ∧ DistOk cur L evd
+  mp : (mp : Int) ≤ cur
+  params : ∀ l ∈ params, WFLex size l
+  evsPos : ∀ x ∈ evs, 0 ≤ x.2
+
+abbrev ExtRel {σ} (size : Int) (a : Abs σ) (s : Sc σ) : Prop :=
+  ExtRelF size a.evd a.mp s.evs s.finds s.params s.cur
+
 /-- concretisation -/
 def Conc {σ} (a : Abs σ) (s : Sc σ) : Prop :=
   s.step = a.st ∧ (∃ base, s.stack = a.stk ++ base) ∧ applyKs (kindsOf s.evs) (kindsOf s.finds) = some a.evk
@@ -206,6 +284,10 @@ structure Snap where
   nfinds : Nat
   lag : Nat
   fresh : Bool
+  /-- size of the file -/
+  size : Int
+  /-- the byte is the end-of-file pseudo byte -/
+  eof : Bool
 
 /-- the cursor and the event queue during a byte that began at `c0`: rewound by exactly `rew`, or
     jumped forward; `nf` more events queued; a rewind or a jump happened only where the abstract
@@ -226,7 +308,8 @@ abbrev CurRel {σ} (c0 : Snap) (a : Abs σ) (s : Sc σ) : Prop :=
 
 /-- concretisation that also tracks the cursor: unmoved means still at `c0` -/
 def ConcC {σ} (c0 : Snap) (a : Abs σ) (s : Sc σ) : Prop :=
-  Conc a s ∧ (a.mv = false → s.cur = c0.cur) ∧ CurRel c0 a s
+  Conc a s ∧ (a.mv = false → s.cur = c0.cur) ∧ CurRel c0 a s ∧ ExtRel c0.size a s ∧
+    (s.cur ≤ c0.size ∧ (c0.eof = false → s.cur < c0.size))
 
 theorem applyKs_append (stk : List Ev) (l : List Ev) (e : Ev) :
     applyKs stk (l ++ [e]) = (applyKs stk l).bind (fun k => applyK k e) := by
@@ -263,18 +346,262 @@ theorem joinAll_mem {α} (l : List (Option (List α))) (r : List α) (h : joinAl
         · obtain ⟨x', hx', hsub⟩ := ih y hr o' ho'
           exact ⟨x', hx', fun z hz => List.mem_append_right _ (hsub z hz)⟩
 
+/-! ### extent lemmas -/
+
+theorem simQ_append (size : Int) (stk l : List (Ev × Int)) (ev : Ev × Int) :
+    simQ size stk (l ++ [ev]) = (simQ size stk l).bind (fun L => simQ size L [ev]) := by
+  induction l generalizing stk with
+  | nil => simp [simQ]
+  | cons x rest ih =>
+    simp only [List.cons_append, simQ]
+    split
+    · split
+      · exact ih _
+      · rfl
+    · split
+      · split
+        · split
+          · exact ih _
+          · rfl
+        · rfl
+      · split
+        · exact ih _
+        · rfl
+
+/-- the positions aside, `simQ` is `applyKs` -/
+theorem simQ_kinds (size : Int) (stk l L : List (Ev × Int)) (h : simQ size stk l = some L) :
+    applyKs (kindsOf stk) (kindsOf l) = some (kindsOf L) := by
+  induction l generalizing stk with
+  | nil => simp only [simQ, Option.some.injEq] at h; subst h; rfl
+  | cons x rest ih =>
+    simp only [simQ] at h
+    simp only [kindsOf, List.map_cons, applyKs, applyK]
+    by_cases hb : x.1.isBeginning = true
+    · simp only [hb, if_true] at h ⊢
+      split at h
+      · exact ih _ h
+      · simp at h
+    · simp only [hb, Bool.false_eq_true, if_false] at h ⊢
+      by_cases he : x.1.isEnding = true
+      · simp only [he, if_true] at h ⊢
+        cases stk with
+        | nil => simp at h
+        | cons b stk' =>
+          simp only [List.map_cons] at h ⊢
+          split at h
+          · rename_i hm
+            simp only [hm.1, if_true]
+            exact ih _ h
+          · simp at h
+      · simp only [he, Bool.false_eq_true, if_false] at h ⊢
+        split at h
+        · exact ih _ h
+        · simp at h
+
+theorem DistOk_mono (cur cur' : Int) (hle : cur ≤ cur') : ∀ (L : List (Ev × Int)) (ds : List Nat), DistOk cur L ds → DistOk cur' L ds
+  | [], [], _ => trivial
+  | _ :: L, _ :: ds, h => ⟨h.1, by have := h.2.1; omega, DistOk_mono cur cur' hle L ds h.2.2⟩
+  | [], _ :: _, h => h.elim
+  | _ :: _, [], h => h.elim
+
+theorem DistOk_sub (cur : Int) (n : Nat) : ∀ (L : List (Ev × Int)) (ds : List Nat), (∀ d ∈ ds, n ≤ d) → DistOk cur L ds →
+    DistOk (cur - n) L (ds.map (· - n))
+  | [], [], _, _ => trivial
+  | _ :: L, d :: ds, hall, h => by
+    have hd : n ≤ d := hall d (by simp)
+    refine ⟨h.1, ?_, DistOk_sub cur n L ds (fun x hx => hall x (by simp [hx])) h.2.2⟩
+    have := h.2.1
+    simp only
+    omega
+  | [], _ :: _, _, h => h.elim
+  | _ :: _, [], _, h => h.elim
+
+theorem DistOk_next (cur : Int) : ∀ (L : List (Ev × Int)) (ds : List Nat), DistOk cur L ds →
+    DistOk (cur + 1) L (ds.map (fun d => min posCap (d + 1)))
+  | [], [], _ => trivial
+  | _ :: L, d :: ds, h => by
+    refine ⟨h.1, ?_, DistOk_next cur L ds h.2.2⟩
+    have := h.2.1
+    have : min posCap (d + 1) ≤ d + 1 := Nat.min_le_right _ _
+    simp only
+    omega
+  | [], _ :: _, h => h.elim
+  | _ :: _, [], h => h.elim
+
+/-- queueing one event at `cur − back` where the abstract interpreter accepts it -/
+theorem found_ext (size cur : Int) (eofB : Bool) (mp : Nat) (evd evd' : List Nat) (evk evk' : List Ev)
+    (evs finds : List (Ev × Int)) (params : List Lexeme) (e : Ev) (back : Nat)
+    (hx : ExtRelF size evd mp evs finds params cur)
+    (hkinds : applyKs (kindsOf evs) (kindsOf finds) = some evk)
+    (hk : applyK evk e = some evk') (hd : applyD eofB mp evd e back = some evd')
+    (hle : cur ≤ size) (hlt : eofB = false → cur < size) :
+    ExtRelF size evd' mp evs (finds ++ [(e, cur - back)]) params cur := by
+  obtain ⟨⟨L, hq, hdist⟩, hmp, hpar, hpos⟩ := hx
+  have hkL : kindsOf L = evk := by
+    have := simQ_kinds size evs finds L hq
+    rw [hkinds] at this
+    exact (Option.some.inj this).symm
+  refine ⟨?_, hmp, hpar, hpos⟩
+  rw [simQ_append, hq]
+  simp only [Option.bind, simQ]
+  unfold applyD at hd
+  unfold applyK at hk
+  by_cases hb : e.isBeginning = true
+  · simp only [hb, if_true] at hd hk ⊢
+    by_cases hbm : back ≤ mp
+    · simp only [hbm, if_true, Option.some.injEq] at hd
+      subst hd
+      have h1 : 0 ≤ cur - back ∧ cur - back ≤ size := by omega
+      simp only [h1, and_self, if_true]
+      exact ⟨_, rfl, by omega, by omega, hdist⟩
+    · simp [hbm] at hd
+  · simp only [hb, Bool.false_eq_true, if_false] at hd hk ⊢
+    by_cases he : e.isEnding = true
+    · simp only [he, if_true] at hd hk ⊢
+      cases evd with
+      | nil => simp at hd
+      | cons d rest =>
+        cases L with
+        | nil => exact hdist.elim
+        | cons b L' =>
+          simp only at hd
+          split at hd
+          · rename_i hcond
+            simp only [Option.some.injEq] at hd
+            subst hd
+            simp only [Bool.and_eq_true, decide_eq_true_eq, Bool.or_eq_true, Bool.not_eq_true'] at hcond
+            subst hkL
+            simp only [kindsOf, List.map_cons] at hk
+            have hm : Ev.matches b.1 e = true := by
+              by_cases hm : Ev.matches b.1 e = true
+              · exact hm
+              · simp [hm] at hk
+            have hbd := hdist.2.1
+            have hlt' : cur - back < size := by
+              rcases hcond.2 with h0 | h1
+              · have := hlt h0; omega
+              · omega
+            have h1 : Ev.matches b.1 e = true ∧ b.2 ≤ cur - back + 1 ∧ cur - back < size := ⟨hm, by omega, hlt'⟩
+            simp only [h1, and_self, if_true]
+            exact ⟨_, rfl, hdist.2.2⟩
+          · simp at hd
+    · simp only [he, Bool.false_eq_true, if_false] at hd hk ⊢
+      split at hd
+      · rename_i hcond
+        simp only [Option.some.injEq] at hd
+        subst hd
+        simp only [Bool.and_eq_true, decide_eq_true_eq, Bool.or_eq_true, Bool.not_eq_true'] at hcond
+        have hlt' : cur - back < size := by
+          rcases hcond.2 with h0 | h1
+          · have := hlt h0; omega
+          · omega
+        have h1 : 0 ≤ cur - back ∧ cur - back < size := ⟨by omega, hlt'⟩
+        simp only [h1, and_self, if_true]
+        exact ⟨_, rfl, hdist⟩
+      · simp at hd
+
+theorem lexValue_wf (env : Env) (l : Lexeme) (h : WFLex env.size l) : ∃ v, env.lexValue l = some v := by
+  obtain ⟨h1, h2, h3⟩ := h
+  simp only [Env.lexValue, Env.sub]
+  have : 0 ≤ l.b ∧ l.b ≤ l.e + 1 ∧ l.e + 1 ≤ (env.size : Int) := ⟨h1, h2, by omega⟩
+  simp only [this, and_self, if_true]
+  exact ⟨_, rfl⟩
+
+theorem hasTypeOrAnyOrEmpty_wf (env : Env) (ps : List Lexeme) (h : ∀ l ∈ ps, WFLex env.size l) :
+    ∃ b, hasTypeOrAnyOrEmpty env ps = some b := by
+  induction ps with
+  | nil => exact ⟨_, rfl⟩
+  | cons l rest ih =>
+    obtain ⟨v, hv⟩ := lexValue_wf env l (h l (by simp))
+    simp only [hasTypeOrAnyOrEmpty, hv]
+    split
+    · exact ⟨_, rfl⟩
+    · exact ih (fun x hx => h x (by simp [hx]))
+
+theorem hasAnyOrEmpty_wf (env : Env) (ps : List Lexeme) (h : ∀ l ∈ ps, WFLex env.size l) :
+    ∃ b, hasAnyOrEmpty env ps = some b := by
+  induction ps with
+  | nil => exact ⟨_, rfl⟩
+  | cons l rest ih =>
+    obtain ⟨v, hv⟩ := lexValue_wf env l (h l (by simp))
+    simp only [hasAnyOrEmpty, hv]
+    split
+    · exact ⟨_, rfl⟩
+    · exact ih (fun x hx => h x (by simp [hx]))
+
+theorem hasRegex_wf (env : Env) (ps : List Lexeme) (h : ∀ l ∈ ps, WFLex env.size l) :
+    ∃ b, hasRegex env ps = some b := by
+  induction ps with
+  | nil => exact ⟨_, rfl⟩
+  | cons l rest ih =>
+    obtain ⟨v, hv⟩ := lexValue_wf env l (h l (by simp))
+    simp only [hasRegex, hv]
+    split
+    · exact ⟨_, rfl⟩
+    · exact ih (fun x hx => h x (by simp [hx]))
+
+/-- a safe condition evaluates without indexing outside the file -/
+theorem evalCond_safe {σ} (env : Env) (s : Sc σ) (c : UInt8) (eofB : Bool) (mp : Nat) (cnd : Cond)
+    (hs : condSafe eofB mp cnd = true) (hmp : (mp : Int) ≤ s.cur) (hle : s.cur ≤ env.size)
+    (hlt : eofB = false → s.cur < env.size) (hpar : ∀ l ∈ s.params, WFLex env.size l) :
+    ∃ b, evalCond env s c cnd = some b := by
+  induction cnd with
+  | byteEq _ => exact ⟨_, rfl⟩
+  | byteLe _ => exact ⟨_, rfl⟩
+  | byteGe _ => exact ⟨_, rfl⟩
+  | eqCaseWs => exact ⟨_, rfl⟩
+  | eqCaseNl => exact ⟨_, rfl⟩
+  | isWs => exact ⟨_, rfl⟩
+  | isNl => exact ⟨_, rfl⟩
+  | dataBackEq back b =>
+    simp only [condSafe, Bool.and_eq_true, decide_eq_true_eq, Bool.or_eq_true, Bool.not_eq_true'] at hs
+    simp only [evalCond]
+    have : 0 ≤ s.cur - back ∧ s.cur - back < env.size := by
+      refine ⟨by omega, ?_⟩
+      rcases hs.2 with h0 | h1
+      · have := hlt h0; omega
+      · omega
+    simp only [this, and_self, if_true]
+    exact ⟨_, rfl⟩
+  | isDirective => exact ⟨_, rfl⟩
+  | hasTypeOrAnyOrEmpty => exact hasTypeOrAnyOrEmpty_wf env s.params hpar
+  | hasAnyOrEmpty => exact hasAnyOrEmpty_wf env s.params hpar
+  | hasRegex => exact hasRegex_wf env s.params hpar
+  | not a ih =>
+    obtain ⟨b, hb⟩ := ih hs
+    exact ⟨!b, by simp [evalCond, hb]⟩
+  | and a b iha ihb =>
+    simp only [condSafe, Bool.and_eq_true] at hs
+    obtain ⟨x, hx⟩ := iha hs.1
+    obtain ⟨y, hy⟩ := ihb hs.2
+    cases x with
+    | true => exact ⟨y, by simp [evalCond, hx, hy]⟩
+    | false => exact ⟨false, by simp [evalCond, hx]⟩
+  | or a b iha ihb =>
+    simp only [condSafe, Bool.and_eq_true] at hs
+    obtain ⟨x, hx⟩ := iha hs.1
+    obtain ⟨y, hy⟩ := ihb hs.2
+    cases x with
+    | false => exact ⟨y, by simp [evalCond, hx, hy]⟩
+    | true => exact ⟨true, by simp [evalCond, hx]⟩
+
 /-- at the start of a byte -/
-theorem concC_start {σ} (a : Abs σ) (s : Sc σ) (hc : Conc a s) :
-    ConcC ⟨s.cur, s.finds.length, a.lag, a.fresh⟩ a.norm s :=
+theorem concC_start {σ} (size : Int) (a : Abs σ) (s : Sc σ) (hc : Conc a s) (hx : ExtRel size a s)
+    (hle : s.cur ≤ size) :
+    ConcC ⟨s.cur, s.finds.length, a.lag, a.fresh, size, s.cur == size⟩ a.norm s :=
   ⟨hc, fun _ => rfl, ⟨fun _ => by simp [Abs.norm], fun h => by simp [Abs.norm] at h, by simp [Abs.norm], by simp [Abs.norm], rfl, rfl,
-    fun h => by simp [Abs.norm] at h, fun h => by simp [Abs.norm] at h⟩⟩
+    fun h => by simp [Abs.norm] at h, fun h => by simp [Abs.norm] at h⟩, hx,
+    hle, fun h => by
+      have : s.cur ≠ size := by simpa using h
+      simp only
+      omega⟩
 
 /-- what the real body does, in terms of the abstract tails -/
 def TailOk {σ} (c0 : Snap) (tails : List (ATail σ)) : Tail σ → Prop
   | .done s' => ∃ a', ATail.done a' ∈ tails ∧ ConcC c0 a' s'
   | .call t s' => ∃ a', ATail.call t a' ∈ tails ∧ ConcC c0 a' s'
   | .redispatch s' => ∃ a', ATail.redispatch a' ∈ tails ∧ ConcC c0 a' s'
-  | .fault f => ¬ StackFault f
+  | .fault f => ¬ Crash f
 
 theorem tailOk_mono {σ} (c0 : Snap) (x y : List (ATail σ)) (t : Tail σ) (h : TailOk c0 x t) (hs : ∀ z ∈ x, z ∈ y) : TailOk c0 y t := by
   cases t with
@@ -283,10 +610,11 @@ theorem tailOk_mono {σ} (c0 : Snap) (x y : List (ATail σ)) (t : Tail σ) (h : 
   | redispatch s' => obtain ⟨a', ha, hc⟩ := h; exact ⟨a', hs _ ha, hc⟩
   | fault f => exact h
 
-theorem ucErr_not_stack {σ} (env : Env) (s : Sc σ) (w e : String) : ¬ StackFault (ucErr env s w e) := by
-  unfold ucErr; split <;> simp [StackFault]
+theorem ucErr_not_crash {σ} (env : Env) (s : Sc σ) (w e : String) : ¬ Crash (ucErr env s w e) := by
+  unfold ucErr; split <;> simp [Crash]
 
-theorem runProg_sound {σ} (env : Env) (c : UInt8) (c0 : Snap) (p : Prog σ) (a : Abs σ) (s : Sc σ) (tails : List (ATail σ))
+theorem runProg_sound {σ} (env : Env) (c : UInt8) (c0 : Snap) (hsz : c0.size = env.size) (heof : c0.eof = (c == 0))
+    (p : Prog σ) (a : Abs σ) (s : Sc σ) (tails : List (ATail σ))
     (hc : ConcC c0 a s) (h : absProg c p a = some tails) : TailOk c0 tails (runProg env c p s) := by
   induction p generalizing a s tails with
   | setStep t k ih =>
@@ -322,47 +650,63 @@ theorem runProg_sound {σ} (env : Env) (c : UInt8) (c0 : Snap) (p : Prog σ) (a 
     cases hk : applyK a.evk e with
     | none => simp [hk] at h
     | some evk' =>
-      simp only [hk] at h
-      by_cases hnf : a.nf < findCap
-      · simp only [hnf, if_true] at h
-        simp only [runProg]
-        have hr := hc.2.2
-        refine ih { a with evk := evk', nf := a.nf + 1 } _ _
-          ⟨⟨hc.1.1, hc.1.2.1, ?_⟩, hc.2.1, ⟨hr.noJmp, hr.jmp, ?_, by simp only; omega, hr.lag, hr.fresh, hr.rewOk, hr.jmpOk⟩⟩ h
-        · simp only [kindsOf, List.map_append, List.map_cons, List.map_nil]
-          have := hc.1.2.2
-          simp only [kindsOf] at this
-          rw [applyKs_append, this]
-          exact hk
-        · have := hr.nf
-          simp only [List.length_append, List.length_cons, List.length_nil]
-          omega
-      · simp [hnf] at h
+      cases hd : applyD (c == 0) a.mp a.evd e back with
+      | none => simp [hk, hd] at h
+      | some evd' =>
+        simp only [hk, hd] at h
+        by_cases hnf : a.nf < findCap
+        · simp only [hnf, if_true] at h
+          simp only [runProg]
+          have hr := hc.2.2.1
+          have hx := hc.2.2.2.1
+          have hb := hc.2.2.2.2
+          refine ih { a with evk := evk', evd := evd', nf := a.nf + 1 } _ _
+            ⟨⟨hc.1.1, hc.1.2.1, ?_⟩, hc.2.1, ⟨hr.noJmp, hr.jmp, ?_, by simp only; omega, hr.lag, hr.fresh, hr.rewOk, hr.jmpOk⟩, ?_, hb⟩ h
+          · simp only [kindsOf, List.map_append, List.map_cons, List.map_nil]
+            have := hc.1.2.2
+            simp only [kindsOf] at this
+            rw [applyKs_append, this]
+            exact hk
+          · have := hr.nf
+            simp only [List.length_append, List.length_cons, List.length_nil]
+            omega
+          · exact found_ext c0.size s.cur (c == 0) a.mp a.evd evd' a.evk evk' s.evs s.finds s.params e back hx hc.1.2.2 hk hd
+              hb.1 (by rw [← heof]; exact hb.2)
+        · simp [hnf] at h
   | curSub n k ih =>
     simp only [absProg] at h
-    by_cases hg : (a.lag == 0 && a.fresh && a.rew == 0 && !a.jmp && decide (1 ≤ n) && decide (n ≤ rewCap)) = true
+    by_cases hg : (a.lag == 0 && a.fresh && a.rew == 0 && !a.jmp && decide (1 ≤ n) && decide (n ≤ rewCap) && decide (n ≤ a.mp) && a.evd.all (n ≤ ·)) = true
     · simp only [hg, if_true] at h
-      simp only [Bool.and_eq_true, beq_iff_eq, Bool.not_eq_true', decide_eq_true_eq] at hg
-      obtain ⟨⟨⟨⟨⟨hlag, hfresh⟩, hrew⟩, hjmp⟩, _⟩, hcap⟩ := hg
-      have hr := hc.2.2
+      simp only [Bool.and_eq_true, beq_iff_eq, Bool.not_eq_true', decide_eq_true_eq, List.all_eq_true] at hg
+      obtain ⟨⟨⟨⟨⟨⟨⟨hlag, hfresh⟩, hrew⟩, hjmp⟩, _⟩, hcap⟩, hmpn⟩, hall⟩ := hg
+      have hr := hc.2.2.1
+      have hx := hc.2.2.2.1
+      have hb := hc.2.2.2.2
+      have hmp := hx.mp
       simp only [runProg]
-      split
-      · simp [TailOk, StackFault]
-      · refine ih { a with mv := true, rew := n } _ _ ⟨⟨hc.1.1, hc.1.2.1, hc.1.2.2⟩, by simp,
-          ⟨?_, ?_, hr.nf, hr.nfCap, hr.lag, hr.fresh, ?_, ?_⟩⟩ h
-        · intro _
-          have := hr.noJmp hjmp
-          simp only [hrew] at this
-          simp only
-          omega
-        · intro hj
-          simp only [hjmp] at hj
-          exact absurd hj (by simp)
-        · intro _
-          exact ⟨by rw [← hr.lag]; exact hlag, by rw [← hr.fresh]; exact hfresh, hcap⟩
-        · intro hj
-          simp only [hjmp] at hj
-          exact absurd hj (by simp)
+      have hnn : ¬ (s.cur - n < 0) := by omega
+      simp only [hnn, if_false]
+      refine ih { a with mv := true, rew := n, mp := a.mp - n, evd := a.evd.map (· - n) } _ _ ⟨⟨hc.1.1, hc.1.2.1, hc.1.2.2⟩, by simp,
+        ⟨?_, ?_, hr.nf, hr.nfCap, hr.lag, hr.fresh, ?_, ?_⟩, ⟨?_, ?_, hx.params, hx.evsPos⟩, ?_, ?_⟩ h
+      · intro _
+        have := hr.noJmp hjmp
+        simp only [hrew] at this
+        simp only
+        omega
+      · intro hj
+        simp only [hjmp] at hj
+        exact absurd hj (by simp)
+      · intro _
+        exact ⟨by rw [← hr.lag]; exact hlag, by rw [← hr.fresh]; exact hfresh, hcap⟩
+      · intro hj
+        simp only [hjmp] at hj
+        exact absurd hj (by simp)
+      · obtain ⟨L, hq, hdist⟩ := hx.q
+        exact ⟨L, hq, DistOk_sub s.cur n L a.evd (fun d hd => by simpa using hall d hd) hdist⟩
+      · simp only
+        omega
+      · simp only; have := hb.1; omega
+      · intro he; simp only; have := hb.1; omega
     · simp [hg] at h
   | readLen kind k ih =>
     simp only [absProg] at h
@@ -370,7 +714,10 @@ theorem runProg_sound {σ} (env : Env) (c : UInt8) (c0 : Snap) (p : Prog σ) (a 
     · simp only [hg, if_true] at h
       simp only [Bool.and_eq_true, beq_iff_eq] at hg
       obtain ⟨hlag, hrew⟩ := hg
-      have hr := hc.2.2
+      have hr := hc.2.2.1
+      have hx := hc.2.2.2.1
+      have hb := hc.2.2.2.2
+      have hmp := hx.mp
       have hge : c0.cur ≤ s.cur := by
         by_cases hj : a.jmp = true
         · exact (hr.jmp hj).1
@@ -383,60 +730,78 @@ theorem runProg_sound {σ} (env : Env) (c : UInt8) (c0 : Snap) (p : Prog σ) (a 
         · intro hne; exact absurd hrew hne
         · intro _; rw [← hr.lag]; exact hlag
       simp only [runProg]
+      have hin : ¬ (s.cur < 0 ∨ s.cur > env.size) := by
+        have := hb.1
+        rw [hsz] at this
+        omega
+      simp only [hin, if_false]
       split
-      · simp [TailOk, StackFault]
-      · split
-        · simp [TailOk, StackFault]
-        · rename_i n _
+      · simp [TailOk, Crash]
+      · rename_i n _
+        by_cases hclip : s.cur + n > env.size
+        · simp only [hclip, if_true]
+          simp [TailOk, Crash]
+        · simp only [hclip, if_false]
           by_cases hn : n > 0
           · simp only [hn, if_true]
-            refine ih { a with mv := true, jmp := true } _ _ ⟨⟨hc.1.1, hc.1.2.1, hc.1.2.2⟩, by simp, hrel _ ?_ rfl⟩ h
-            simp only
-            omega
+            refine ih { a with mv := true, jmp := true } _ _ ⟨⟨hc.1.1, hc.1.2.1, hc.1.2.2⟩, by simp, hrel _ ?_ rfl,
+              ⟨?_, ?_, hx.params, hx.evsPos⟩, ?_, ?_⟩ h
+            · simp only; omega
+            · obtain ⟨L, hq, hdist⟩ := hx.q
+              exact ⟨L, hq, DistOk_mono s.cur _ (by simp only; omega) L a.evd hdist⟩
+            · simp only; omega
+            · simp only; rw [hsz]; omega
+            · intro _; simp only; rw [hsz]; omega
           · simp only [hn, if_false]
-            exact ih { a with mv := true, jmp := true } _ _ ⟨⟨hc.1.1, hc.1.2.1, hc.1.2.2⟩, by simp, hrel _ hge rfl⟩ h
+            exact ih { a with mv := true, jmp := true } _ _ ⟨⟨hc.1.1, hc.1.2.1, hc.1.2.2⟩, by simp, hrel _ hge rfl, hx, hb⟩ h
     · simp [hg] at h
   | ite cnd t e iht ihe =>
     simp only [absProg] at h
-    simp only [runProg]
-    cases hsc : simpleCond c cnd with
-    | some b =>
-      cases b with
-      | true => simp only [hsc] at h; simp only [evalCond_simple env s c cnd true hsc]; exact iht _ _ _ hc h
-      | false => simp only [hsc] at h; simp only [evalCond_simple env s c cnd false hsc]; exact ihe _ _ _ hc h
-    | none =>
-      simp only [hsc] at h
-      cases hx : absProg c t a with
-      | none => simp [hx] at h
-      | some x =>
-        cases hy : absProg c e a with
-        | none => simp [hx, hy] at h
-        | some y =>
-          simp only [hx, hy, Option.some.injEq] at h
-          subst h
-          cases evalCond env s c cnd with
-          | none => simp [TailOk, StackFault]
-          | some b =>
-            cases b with
-            | true => exact tailOk_mono c0 x _ _ (iht _ _ _ hc hx) (fun z hz => List.mem_append_left _ hz)
+    by_cases hsafe : condSafe (c == 0) a.mp cnd = true
+    · simp only [hsafe, Bool.not_true, Bool.false_eq_true, if_false] at h
+      have hx := hc.2.2.2.1
+      have hb := hc.2.2.2.2
+      obtain ⟨bv, hbv⟩ := evalCond_safe env s c (c == 0) a.mp cnd hsafe hx.mp (by rw [← hsz]; exact hb.1)
+        (by rw [← hsz, ← heof]; exact hb.2) (by rw [← hsz]; exact hx.params)
+      simp only [runProg]
+      cases hsc : simpleCond c cnd with
+      | some b =>
+        cases b with
+        | true => simp only [hsc] at h; simp only [evalCond_simple env s c cnd true hsc]; exact iht _ _ _ hc h
+        | false => simp only [hsc] at h; simp only [evalCond_simple env s c cnd false hsc]; exact ihe _ _ _ hc h
+      | none =>
+        simp only [hsc] at h
+        cases hxx : absProg c t a with
+        | none => simp [hxx] at h
+        | some x =>
+          cases hy : absProg c e a with
+          | none => simp [hxx, hy] at h
+          | some y =>
+            simp only [hxx, hy, Option.some.injEq] at h
+            subst h
+            rw [hbv]
+            cases bv with
+            | true => exact tailOk_mono c0 x _ _ (iht _ _ _ hc hxx) (fun z hz => List.mem_append_left _ hz)
             | false => exact tailOk_mono c0 y _ _ (ihe _ _ _ hc hy) (fun z hz => List.mem_append_right _ hz)
+    · simp [hsafe] at h
   | ok => simp only [absProg, Option.some.injEq] at h; subst h; exact ⟨a, by simp, hc⟩
   | redispatch => simp only [absProg, Option.some.injEq] at h; subst h; exact ⟨a, by simp, hc⟩
   | call t => simp only [absProg, Option.some.injEq] at h; subst h; exact ⟨a, by simp, hc⟩
-  | failChar w e => simp only [runProg, TailOk]; exact ucErr_not_stack env s w e
+  | failChar w e => simp only [runProg, TailOk]; exact ucErr_not_crash env s w e
   | failBasic m =>
     simp only [absProg] at h
     by_cases hm : (m == mismatchMsg) = true
     · simp [hm] at h
-    · simp only [runProg, TailOk, StackFault]
+    · simp only [runProg, TailOk, Crash]
       simpa using hm
 
 /-- the whole byte step, following tail calls -/
-theorem stepFuel_sound {σ} (env : Env) (prog : σ → Prog σ) (c : UInt8) (c0 : Snap) (n : Nat) (st : σ) (a : Abs σ) (s : Sc σ)
+theorem stepFuel_sound {σ} (env : Env) (prog : σ → Prog σ) (c : UInt8) (c0 : Snap) (hsz : c0.size = env.size) (heof : c0.eof = (c == 0))
+    (n : Nat) (st : σ) (a : Abs σ) (s : Sc σ)
     (outs : List (Abs σ)) (hc : ConcC c0 a s) (h : absStepFuel prog c n st a = some outs) :
     match stepFuel env prog c n st s with
     | .ok s' => ∃ a' ∈ outs, ConcC c0 a' s'
-    | .error f => ¬ StackFault f := by
+    | .error f => ¬ Crash f := by
   induction n generalizing st a s outs with
   | zero => simp [absStepFuel] at h
   | succ n ih =>
@@ -445,7 +810,7 @@ theorem stepFuel_sound {σ} (env : Env) (prog : σ → Prog σ) (c : UInt8) (c0 
     | none => simp [hp] at h
     | some tails =>
       simp only [hp] at h
-      have hsound := runProg_sound env c c0 (prog st) a s tails hc hp
+      have hsound := runProg_sound env c c0 hsz heof (prog st) a s tails hc hp
       have hj := joinAll_mem _ _ h
       simp only [stepFuel]
       cases hr : runProg env c (prog st) s with
@@ -481,76 +846,127 @@ theorem stepFuel_sound {σ} (env : Env) (prog : σ → Prog σ) (c : UInt8) (c0 
         | error f => exact id
 
 
-/-! ### the driver: event processing never pops an empty stack, never mismatches -/
+/-! ### the driver: event processing never pops an empty stack, never mismatches, and every lexeme
+    it builds lies inside the file -/
 
-theorem processEvent_sound {σ} (a : Abs σ) (s : Sc σ) (ev : Ev × Int) (rest : List (Ev × Int))
-    (hf : s.finds = ev :: rest) (hc : Conc a s) :
-    ∃ lex s', processEvent { s with finds := rest } ev = .ok (lex, s') ∧ Conc a s' ∧ s'.finds = rest ∧ s'.cur = s.cur := by
+theorem processEvent_sound {σ} (size : Int) (a : Abs σ) (s : Sc σ) (ev : Ev × Int) (rest : List (Ev × Int))
+    (hf : s.finds = ev :: rest) (hc : Conc a s) (hx : ExtRel size a s) :
+    ∃ lex s', processEvent { s with finds := rest } ev = .ok (lex, s') ∧ Conc a s' ∧ ExtRel size a s' ∧ s'.finds = rest ∧
+      s'.cur = s.cur ∧ s'.params = s.params ∧ (∀ l, lex = some l → WFLex size l) := by
   obtain ⟨hstep, hstack, hk⟩ := hc
+  obtain ⟨⟨L, hq, hdist⟩, hmp, hpar, hpos⟩ := hx
   simp only [hf, kindsOf, List.map_cons, applyKs] at hk
+  simp only [hf, simQ] at hq
   unfold processEvent
   by_cases hb : ev.1.isBeginning = true
-  · simp only [hb, if_true]
-    refine ⟨_, _, rfl, ⟨hstep, hstack, ?_⟩, rfl, rfl⟩
-    simp only [applyK, hb, if_true] at hk
-    simpa [kindsOf] using hk
-  · simp only [hb, Bool.false_eq_true, if_false]
+  · simp only [hb, if_true] at hq ⊢
+    split at hq
+    · rename_i hpos0
+      refine ⟨_, _, rfl, ⟨hstep, hstack, ?_⟩, ⟨⟨L, hq, hdist⟩, hmp, hpar, ?_⟩, rfl, rfl, rfl, by simp⟩
+      · simp only [applyK, hb, if_true] at hk
+        simpa [kindsOf] using hk
+      · intro x hxm
+        rcases List.mem_cons.mp hxm with rfl | hxm
+        · exact hpos0.1
+        · exact hpos x hxm
+    · simp at hq
+  · simp only [hb, Bool.false_eq_true, if_false] at hq ⊢
     by_cases he : ev.1.isEnding = true
-    · simp only [he, if_true]
+    · simp only [he, if_true] at hq ⊢
       simp only [applyK, hb, Bool.false_eq_true, if_false, he, if_true] at hk
       cases hev : s.evs with
       | nil => simp [hev] at hk
       | cons st restEvs =>
-        simp only [hev, List.map_cons] at hk
-        by_cases hm : Ev.matches st.1 ev.1 = true
-        · simp only [hm, if_true] at hk ⊢
-          exact ⟨_, _, rfl, ⟨hstep, hstack, by simpa [kindsOf] using hk⟩, rfl, rfl⟩
-        · simp [hm] at hk
-    · simp only [he, Bool.false_eq_true, if_false]
+        simp only [hev, List.map_cons] at hk hq
+        split at hq
+        · rename_i hcond
+          simp only [hcond.1, if_true] at hk ⊢
+          refine ⟨_, _, rfl, ⟨hstep, hstack, by simpa [kindsOf] using hk⟩, ⟨⟨L, hq, hdist⟩, hmp, hpar, ?_⟩, rfl, rfl, rfl, ?_⟩
+          · intro x hxm
+            exact hpos x (by rw [hev]; exact List.mem_cons_of_mem _ hxm)
+          · intro l hl
+            simp only [Option.some.injEq] at hl
+            subst hl
+            exact ⟨hpos st (by rw [hev]; simp), hcond.2.1, hcond.2.2⟩
+        · simp at hq
+    · simp only [he, Bool.false_eq_true, if_false] at hq ⊢
       simp only [applyK, hb, Bool.false_eq_true, if_false, he] at hk
-      exact ⟨_, _, rfl, ⟨hstep, hstack, by simpa [kindsOf] using hk⟩, rfl, rfl⟩
+      split at hq
+      · rename_i hcond
+        refine ⟨_, _, rfl, ⟨hstep, hstack, by simpa [kindsOf] using hk⟩, ⟨⟨L, hq, hdist⟩, hmp, hpar, hpos⟩, rfl, rfl, rfl, ?_⟩
+        intro l hl
+        simp only [Option.some.injEq] at hl
+        subst hl
+        exact ⟨hcond.1, by simp only; omega, hcond.2⟩
+      · simp at hq
 
-theorem drain_sound {σ} (a : Abs σ) (n : Nat) (s : Sc σ) (hn : n ≤ s.finds.length) (hc : Conc a s) :
-    ∃ lex s', drain n s = .ok (lex, s') ∧ Conc a s' ∧ s'.cur = s.cur ∧ s'.finds.length ≤ s.finds.length := by
+theorem drain_sound {σ} (size : Int) (a : Abs σ) (n : Nat) (s : Sc σ) (hn : n ≤ s.finds.length) (hc : Conc a s)
+    (hx : ExtRel size a s) :
+    ∃ lex s', drain n s = .ok (lex, s') ∧ Conc a s' ∧ ExtRel size a s' ∧ s'.cur = s.cur ∧
+      s'.finds.length ≤ s.finds.length ∧ (∀ l, lex = some l → WFLex size l) := by
   induction n generalizing s with
-  | zero => exact ⟨none, s, rfl, hc, rfl, Nat.le_refl _⟩
+  | zero => exact ⟨none, s, rfl, hc, hx, rfl, Nat.le_refl _, by simp⟩
   | succ n ih =>
     cases hfs : s.finds with
     | nil => simp [hfs] at hn
     | cons ev rest =>
-      obtain ⟨lex, s', hp, hc', hrest, hcur⟩ := processEvent_sound a s ev rest hfs hc
+      obtain ⟨lex, s', hp, hc', hx', hrest, hcur, hpar, hwf⟩ := processEvent_sound size a s ev rest hfs hc hx
       simp only [drain, hfs, hp]
       cases lex with
       | none =>
         have hn' : n ≤ s'.finds.length := by rw [hrest]; simp [hfs] at hn; omega
-        obtain ⟨lex2, s2, h2, hc2, hcur2, hlen2⟩ := ih s' hn' hc'
-        exact ⟨lex2, s2, h2, hc2, by rw [hcur2, hcur], by rw [hrest] at hlen2; simp only [hfs, List.length_cons]; omega⟩
+        obtain ⟨lex2, s2, h2, hc2, hx2, hcur2, hlen2, hwf2⟩ := ih s' hn' hc' hx'
+        exact ⟨lex2, s2, h2, hc2, hx2, by rw [hcur2, hcur], by rw [hrest] at hlen2; simp only [List.length_cons]; omega, hwf2⟩
       | some l =>
-        refine ⟨some l, _, rfl, ?_, ?_, ?_⟩
+        have hl : WFLex size l := hwf l rfl
+        refine ⟨some l, _, rfl, ?_, ?_, ?_, ?_, ?_⟩
         · obtain ⟨h1, h2, h3⟩ := hc'
           cases l.ty <;> exact ⟨h1, h2, h3⟩
+        · obtain ⟨hq, hmp, hpr, hpos⟩ := hx'
+          cases hty : l.ty <;> first
+            | exact ⟨hq, hmp, hpr, hpos⟩
+            | (refine ⟨hq, hmp, ?_, hpos⟩
+               intro x hxm
+               simp only [List.mem_append, List.mem_singleton] at hxm
+               rcases hxm with hxm | rfl
+               · exact hpr x hxm
+               · exact hl)
+            | (refine ⟨hq, hmp, ?_, hpos⟩
+               intro x hxm
+               simp at hxm)
         · cases l.ty <;> exact hcur
         · have : s'.finds.length ≤ (ev :: rest).length := by rw [hrest]; simp
           cases l.ty <;> exact this
+        · intro l' hl'
+          simp only [Option.some.injEq] at hl'
+          subst hl'
+          exact hl
 
 /-- what the closure check needs from the table and the input alphabet -/
 structure TableOk {σ} [DecidableEq σ] (prog : σ → Prog σ) (inputs : List UInt8)
-    (reachAt : σ → List (List σ × List Ev × Nat × Bool)) : Prop where
+    (reachAt : σ → List (RKey σ)) : Prop where
   closed_ : ∀ st, closedAt prog inputs reachAt st = true
   /-- every non-zero byte behaves like one of the inputs in every step function -/
   rep : ∀ c : UInt8, c ≠ 0 → ∃ r ∈ inputs, ∀ st, progAgn c r (prog st) = true
+  /-- the inputs are real bytes (0 is the end-of-file pseudo byte) -/
+  nz : ∀ r ∈ inputs, r ≠ 0
 
 /-- the scanner state is covered by the reach set, or the file has been read to its end -/
-def Good {σ} [DecidableEq σ] (env : Env) (reachAt : σ → List (List σ × List Ev × Nat × Bool)) (s : Sc σ) : Prop :=
-  (∃ a, memR reachAt a = true ∧ Conc a s) ∨ (s.cur > env.size ∧ ∃ a, Conc a s)
+def Good {σ} [DecidableEq σ] (env : Env) (reachAt : σ → List (RKey σ)) (s : Sc σ) : Prop :=
+  (∃ a, memR reachAt a = true ∧ Conc a s ∧ ExtRel env.size a s) ∨
+  (s.cur > env.size ∧ ∃ a, Conc a s ∧ ExtRel env.size a s)
 
-def ResOk {σ} [DecidableEq σ] (env : Env) (reachAt : σ → List (List σ × List Ev × Nat × Bool)) :
+def ResOk {σ} [DecidableEq σ] (env : Env) (reachAt : σ → List (RKey σ)) :
     Except Fault (Option Lexeme × Sc σ) → Prop
-  | .ok (_, s') => Good env reachAt s'
-  | .error f => ¬ StackFault f
+  | .ok (lex, s') => Good env reachAt s' ∧ ∀ l, lex = some l → WFLex env.size l
+  | .error f => ¬ Crash f
+
+theorem Good.cur_nonneg {σ} [DecidableEq σ] {env : Env} {reachAt : σ → List (RKey σ)} {s : Sc σ}
+    (h : Good env reachAt s) : 0 ≤ s.cur := by
+  rcases h with ⟨a, _, _, hx⟩ | ⟨_, a, _, hx⟩ <;> (have := hx.mp; omega)
 
 theorem okAt_spec {σ} [DecidableEq σ] (prog : σ → Prog σ) (inputs : List UInt8)
-    (reachAt : σ → List (List σ × List Ev × Nat × Bool)) (a : Abs σ) (ht : ∀ st, closedAt prog inputs reachAt st = true)
+    (reachAt : σ → List (RKey σ)) (a : Abs σ) (ht : ∀ st, closedAt prog inputs reachAt st = true)
     (ha : memR reachAt a = true) :
     (∃ outs, absByte prog a 0 = some outs ∧ ∀ o ∈ outs, o.mv = false ∨ memR reachAt o.next = true) ∧
     a.lag ≤ rewCap ∧
@@ -559,7 +975,7 @@ theorem okAt_spec {σ} [DecidableEq σ] (prog : σ → Prog σ) (inputs : List U
   simp only [closedAt, List.all_eq_true] at h
   simp only [memR, List.contains_iff_mem] at ha
   have hok := h _ ha
-  have hb : ∀ c, absByte prog { st := a.st, stk := a.stk, evk := a.evk, lag := a.lag, fresh := a.fresh } c = absByte prog a c := fun _ => rfl
+  have hb : ∀ c, absByte prog { st := a.st, stk := a.stk, evk := a.evk, lag := a.lag, fresh := a.fresh, evd := a.evd, mp := a.mp } c = absByte prog a c := fun _ => rfl
   simp only [okAt, Bool.and_eq_true, List.all_eq_true, hb, decide_eq_true_eq] at hok
   obtain ⟨⟨h0, hlag⟩, hin⟩ := hok
   refine ⟨?_, hlag, ?_⟩
@@ -579,128 +995,148 @@ theorem okAt_spec {σ} [DecidableEq σ] (prog : σ → Prog σ) (inputs : List U
 
 theorem zeroMsg_ne : ("File cannot contain byte zero" == mismatchMsg) = false := by decide
 
+/-- the extent part at the start of the next byte -/
+theorem extRel_next {σ} (size : Int) (a' : Abs σ) (s1 : Sc σ) (hx : ExtRel size a' s1) :
+    ExtRel size a'.next ({ s1 with cur := s1.cur + 1 } : Sc σ) := by
+  obtain ⟨⟨L, hq, hdist⟩, hmp, hpar, hpos⟩ := hx
+  refine ⟨⟨L, hq, DistOk_next s1.cur L a'.evd hdist⟩, ?_, hpar, hpos⟩
+  have : min posCap (a'.mp + 1) ≤ a'.mp + 1 := Nat.min_le_right _ _
+  simp only [Abs.next]
+  omega
+
 theorem nextLoop_sound {σ} [DecidableEq σ] (env : Env) (prog : σ → Prog σ) (inputs : List UInt8)
-    (reachAt : σ → List (List σ × List Ev × Nat × Bool)) (ht : TableOk prog inputs reachAt) (n : Nat) (s : Sc σ)
+    (reachAt : σ → List (RKey σ)) (ht : TableOk prog inputs reachAt) (n : Nat) (s : Sc σ)
     (hg : Good env reachAt s) : ResOk env reachAt (nextLoop env prog n s) := by
   induction n generalizing s with
-  | zero => simp [nextLoop, ResOk, StackFault]
+  | zero => simp [nextLoop, ResOk, Crash]
   | succ n ih =>
     simp only [nextLoop]
-    by_cases hneg : s.cur < 0
-    · simp [hneg, ResOk, StackFault]
-    · simp only [hneg, if_false]
-      by_cases hgt : s.cur > env.size
-      · simp only [hgt, if_true]; exact hg
-      · simp only [hgt, if_false]
-        have hlive : ∃ a, memR reachAt a = true ∧ Conc a s := by
-          rcases hg with h | ⟨hbig, _⟩
-          · exact h
-          · exact absurd hbig hgt
-        obtain ⟨a, ha, hc⟩ := hlive
-        obtain ⟨⟨eouts, heo, heall⟩, _, hsucc⟩ := okAt_spec prog inputs reachAt a ht.closed_ ha
-        have hst : s.step = a.st := hc.1
-        have hcc : ConcC ⟨s.cur, s.finds.length, a.lag, a.fresh⟩ a.norm s := concC_start a s hc
-        -- what follows a safe byte step
-        have after : ∀ (s1 : Sc σ) (a' : Abs σ), Conc a' s1 →
-            (memR reachAt a'.next = true ∨ s1.cur + 1 > env.size) →
-            ResOk env reachAt
-              (match drain ({ s1 with cur := s1.cur + 1 } : Sc σ).finds.length { s1 with cur := s1.cur + 1 } with
-               | .error f => .error f
-               | .ok (some lex, s3) => .ok (some lex, s3)
-               | .ok (none, s3) => nextLoop env prog n s3) := by
-          intro s1 a' hc1 hor
-          have hc2 : Conc a' ({ s1 with cur := s1.cur + 1 } : Sc σ) := hc1
-          obtain ⟨lex, s3, hd, hc3, hcur3, _⟩ := drain_sound a' _ _ (Nat.le_refl _) hc2
-          rw [hd]
-          have hg3 : Good env reachAt s3 := by
-            rcases hor with hm | hp
-            · exact Or.inl ⟨a'.next, hm, hc3⟩
-            · exact Or.inr ⟨by rw [hcur3]; exact hp, a', hc3⟩
-          cases lex with
-          | some l => exact hg3
-          | none => exact ih s3 hg3
-        by_cases hend : (s.cur == (env.size : Int)) = true
-        · -- end of file: the pseudo byte 0
-          simp only [hend, if_true, Bool.not_true, Bool.false_and, Bool.false_eq_true, if_false]
-          have hs := stepFuel_sound env prog 0 ⟨s.cur, s.finds.length, a.lag, a.fresh⟩ chainFuel s.step a.norm s eouts hcc (by rw [hst]; exact heo)
+    have hnn := hg.cur_nonneg
+    have hneg : ¬ s.cur < 0 := by omega
+    simp only [hneg, if_false]
+    by_cases hgt : s.cur > env.size
+    · simp only [hgt, if_true]; exact ⟨hg, by simp⟩
+    · simp only [hgt, if_false]
+      have hlive : ∃ a, memR reachAt a = true ∧ Conc a s ∧ ExtRel env.size a s := by
+        rcases hg with h | ⟨hbig, _⟩
+        · exact h
+        · exact absurd hbig hgt
+      obtain ⟨a, ha, hc, hx⟩ := hlive
+      obtain ⟨⟨eouts, heo, heall⟩, _, hsucc⟩ := okAt_spec prog inputs reachAt a ht.closed_ ha
+      have hst : s.step = a.st := hc.1
+      have hcc := concC_start env.size a s hc hx (by omega)
+      -- what follows a safe byte step
+      have after : ∀ (s1 : Sc σ) (a' : Abs σ), Conc a' s1 → ExtRel env.size a' s1 →
+          (memR reachAt a'.next = true ∨ s1.cur + 1 > env.size) →
+          ResOk env reachAt
+            (match drain ({ s1 with cur := s1.cur + 1 } : Sc σ).finds.length { s1 with cur := s1.cur + 1 } with
+             | .error f => .error f
+             | .ok (some lex, s3) => .ok (some lex, s3)
+             | .ok (none, s3) => nextLoop env prog n s3) := by
+        intro s1 a' hc1 hx1 hor
+        have hc2 : Conc a'.next ({ s1 with cur := s1.cur + 1 } : Sc σ) := hc1
+        have hx2 := extRel_next env.size a' s1 hx1
+        obtain ⟨lex, s3, hd, hc3, hx3, hcur3, _, hwf⟩ := drain_sound env.size a'.next _ _ (Nat.le_refl _) hc2 hx2
+        rw [hd]
+        have hg3 : Good env reachAt s3 := by
+          rcases hor with hm | hp
+          · exact Or.inl ⟨a'.next, hm, hc3, hx3⟩
+          · exact Or.inr ⟨by rw [hcur3]; exact hp, a'.next, hc3, hx3⟩
+        cases lex with
+        | some l => exact ⟨hg3, hwf⟩
+        | none => exact ih s3 hg3
+      by_cases hend : (s.cur == (env.size : Int)) = true
+      · -- end of file: the pseudo byte 0
+        simp only [hend, if_true, Bool.not_true, Bool.false_and, Bool.false_eq_true, if_false]
+        have hs := stepFuel_sound env prog 0 ⟨s.cur, s.finds.length, a.lag, a.fresh, env.size, s.cur == env.size⟩ rfl
+          (by simp [hend]) chainFuel s.step a.norm s eouts hcc (by rw [hst]; exact heo)
+        revert hs
+        cases stepFuel env prog 0 chainFuel s.step s with
+        | error f => exact id
+        | ok s1 =>
+          rintro ⟨a', ha', hc', hcur', _, hx', _⟩
+          refine after s1 a' hc' hx' ?_
+          rcases heall a' ha' with hmv | hm
+          · right
+            have : s1.cur = s.cur := hcur' hmv
+            have hsz : s.cur = env.size := by simpa using hend
+            omega
+          · exact Or.inl hm
+      · simp only [hend, Bool.not_false, Bool.true_and, Bool.false_eq_true, if_false]
+        generalize hcdef : env.data.getD s.cur.toNat 0 = c
+        by_cases hz : (c == 0) = true
+        · rw [if_pos hz]
+          simp only [ResOk, Crash]
+          simpa using zeroMsg_ne
+        · rw [if_neg hz]
+          have hc0 : c ≠ 0 := by simpa using hz
+          obtain ⟨r, hr, hagn⟩ := ht.rep c hc0
+          rw [stepFuel_agnostic env prog c r hagn chainFuel s.step s]
+          obtain ⟨outs, houts, hall⟩ := hsucc r hr
+          have hrz : (r == 0) = false := by simpa using ht.nz r hr
+          have hs := stepFuel_sound env prog r ⟨s.cur, s.finds.length, a.lag, a.fresh, env.size, s.cur == env.size⟩ rfl
+            (by simp only [hrz]; simpa using hend) chainFuel s.step a.norm s outs hcc (by rw [hst]; exact houts)
           revert hs
-          cases stepFuel env prog 0 chainFuel s.step s with
+          cases stepFuel env prog r chainFuel s.step s with
           | error f => exact id
           | ok s1 =>
-            rintro ⟨a', ha', hc', hcur', _⟩
-            refine after s1 a' hc' ?_
-            rcases heall a' ha' with hmv | hm
-            · right
-              have : s1.cur = s.cur := hcur' hmv
-              have hsz : s.cur = env.size := by simpa using hend
-              omega
-            · exact Or.inl hm
-        · simp only [hend, Bool.not_false, Bool.true_and, Bool.false_eq_true, if_false]
-          generalize hcdef : env.data.getD s.cur.toNat 0 = c
-          by_cases hz : (c == 0) = true
-          · rw [if_pos hz]
-            simp only [ResOk, StackFault]
-            simpa using zeroMsg_ne
-          · rw [if_neg hz]
-            have hc0 : c ≠ 0 := by simpa using hz
-            obtain ⟨r, hr, hagn⟩ := ht.rep c hc0
-            rw [stepFuel_agnostic env prog c r hagn chainFuel s.step s]
-            obtain ⟨outs, houts, hall⟩ := hsucc r hr
-            have hs := stepFuel_sound env prog r ⟨s.cur, s.finds.length, a.lag, a.fresh⟩ chainFuel s.step a.norm s outs hcc (by rw [hst]; exact houts)
-            revert hs
-            cases stepFuel env prog r chainFuel s.step s with
-            | error f => exact id
-            | ok s1 =>
-              rintro ⟨a', ha', hc', _⟩
-              exact after s1 a' hc' (Or.inl (hall a' ha'))
+            rintro ⟨a', ha', hc', _, _, hx', _⟩
+            exact after s1 a' hc' hx' (Or.inl (hall a' ha'))
 
 theorem next_sound {σ} [DecidableEq σ] (env : Env) (prog : σ → Prog σ) (inputs : List UInt8)
-    (reachAt : σ → List (List σ × List Ev × Nat × Bool)) (ht : TableOk prog inputs reachAt) (fuel : Nat) (s : Sc σ)
+    (reachAt : σ → List (RKey σ)) (ht : TableOk prog inputs reachAt) (fuel : Nat) (s : Sc σ)
     (hg : Good env reachAt s) : ResOk env reachAt (next env prog fuel s) := by
   unfold next
   cases hfs : s.finds with
   | nil => exact nextLoop_sound env prog inputs reachAt ht fuel s hg
   | cons ev rest =>
     dsimp only
-    have step : ∀ a, Conc a s → ∃ lex s', processEvent { s with finds := rest } ev = .ok (lex, s') ∧ Conc a s' ∧ s'.cur = s.cur := by
-      intro a hc
-      obtain ⟨lex, s', hp, hc', _, hcur⟩ := processEvent_sound a s ev rest hfs hc
-      exact ⟨lex, s', hp, hc', hcur⟩
-    have : ∃ lex s', processEvent { s with finds := rest } ev = .ok (lex, s') ∧ Good env reachAt s' := by
-      rcases hg with ⟨a, ha, hc⟩ | ⟨hbig, a, hc⟩
-      · obtain ⟨lex, s', hp, hc', _⟩ := step a hc
-        exact ⟨lex, s', hp, Or.inl ⟨a, ha, hc'⟩⟩
-      · obtain ⟨lex, s', hp, hc', hcur⟩ := step a hc
-        exact ⟨lex, s', hp, Or.inr ⟨by rw [hcur]; exact hbig, a, hc'⟩⟩
-    obtain ⟨lex, s', hp, hg'⟩ := this
+    have : ∃ lex s', processEvent { s with finds := rest } ev = .ok (lex, s') ∧ Good env reachAt s' ∧
+        (∀ l, lex = some l → WFLex env.size l) := by
+      rcases hg with ⟨a, ha, hc, hx⟩ | ⟨hbig, a, hc, hx⟩
+      · obtain ⟨lex, s', hp, hc', hx', _, _, _, hwf⟩ := processEvent_sound env.size a s ev rest hfs hc hx
+        exact ⟨lex, s', hp, Or.inl ⟨a, ha, hc', hx'⟩, hwf⟩
+      · obtain ⟨lex, s', hp, hc', hx', _, hcur, _, hwf⟩ := processEvent_sound env.size a s ev rest hfs hc hx
+        exact ⟨lex, s', hp, Or.inr ⟨by rw [hcur]; exact hbig, a, hc', hx'⟩, hwf⟩
+    obtain ⟨lex, s', hp, hg', hwf⟩ := this
     rw [hp]
     cases lex with
-    | some l => exact hg'
+    | some l => exact ⟨hg', hwf⟩
     | none => exact nextLoop_sound env prog inputs reachAt ht fuel s' hg'
 
-/-- how a whole scan ends -/
+/-- how a whole scan ends, and what it has produced -/
 theorem scanFrom_sound {σ} [DecidableEq σ] (env : Env) (prog : σ → Prog σ) (inputs : List UInt8)
-    (reachAt : σ → List (List σ × List Ev × Nat × Bool)) (ht : TableOk prog inputs reachAt) (fuel n : Nat) (s : Sc σ)
-    (acc : List Lexeme) (hg : Good env reachAt s) :
-    ∀ f, (scanFrom env prog fuel n s acc).2.1 = .fault f → ¬ StackFault f := by
+    (reachAt : σ → List (RKey σ)) (ht : TableOk prog inputs reachAt) (fuel n : Nat) (s : Sc σ)
+    (acc : List Lexeme) (hg : Good env reachAt s) (hacc : ∀ l ∈ acc, WFLex env.size l) :
+    (∀ f, (scanFrom env prog fuel n s acc).2.1 = .fault f → ¬ Crash f) ∧
+    (∀ l ∈ (scanFrom env prog fuel n s acc).1, WFLex env.size l) := by
   induction n generalizing s acc with
-  | zero => intro f hf; simp only [scanFrom] at hf; cases hf; simp [StackFault]
+  | zero =>
+    simp only [scanFrom]
+    exact ⟨fun f hf => by cases hf; simp [Crash], fun l hl => hacc l (by simpa using hl)⟩
   | succ n ih =>
-    intro f hf
-    simp only [scanFrom] at hf
+    simp only [scanFrom]
     have hn := next_sound env prog inputs reachAt ht fuel s hg
-    revert hf hn
+    revert hn
     cases next env prog fuel s with
-    | error f' => intro hf hn; simp only [End.fault.injEq] at hf; subst hf; exact hn
+    | error f' =>
+      intro hn
+      exact ⟨fun f hf => by simp only [End.fault.injEq] at hf; subst hf; exact hn, fun l hl => hacc l (by simpa using hl)⟩
     | ok r =>
       obtain ⟨lex, s'⟩ := r
       cases lex with
-      | none => intro hf; simp at hf
-      | some l => intro hf hn; exact ih s' (l :: acc) hn f hf
+      | none => intro _; exact ⟨fun f hf => by simp at hf, fun l hl => hacc l (by simpa using hl)⟩
+      | some l =>
+        intro hn
+        exact ih s' (l :: acc) hn.1 (fun x hx => by
+          rcases List.mem_cons.mp hx with rfl | hx
+          · exact hn.2 _ rfl
+          · exact hacc x hx)
 
 /-- the initial state is covered as soon as the reach set has the root entry -/
-theorem good_init {σ} [DecidableEq σ] (env : Env) (reachAt : σ → List (List σ × List Ev × Nat × Bool)) (root : σ)
-    (h : (reachAt root).contains ([], [], 0, true) = true) : Good env reachAt (Sc.init root) :=
-  Or.inl ⟨{ st := root, stk := [], evk := [] }, h, rfl, ⟨[], rfl⟩, rfl⟩
+theorem good_init {σ} [DecidableEq σ] (env : Env) (reachAt : σ → List (RKey σ)) (root : σ)
+    (h : (reachAt root).contains ([], [], 0, true, [], 0) = true) : Good env reachAt (Sc.init root) :=
+  Or.inl ⟨{ st := root, stk := [], evk := [] }, h, ⟨rfl, ⟨[], rfl⟩, rfl⟩,
+    ⟨⟨[], rfl, trivial⟩, by simp [Sc.init], by simp [Sc.init], by simp [Sc.init]⟩⟩
 
 end JsightVerif.Model
